@@ -51,10 +51,15 @@ static std::vector<std::string> split(const std::string& s, char c) {
   return o;
 }
 
+struct Env;
+static Env* g_shared_current = nullptr;   // --shared-emitter: the Env whose CodeHolder the one assembler is attached to
+
 struct Env {
   Environment env;
   CodeHolder code;
   x86::Assembler a;
+  x86::Assembler* ap = &a;   // --shared-emitter: both Envs point to the same object, re-attached when the mode changes
+  bool shared = false;
   StringLogger logger;
   CountingHandler eh;
   int cases_since_reset = 0;
@@ -74,9 +79,19 @@ struct Env {
       logger.set_flags(FormatFlags(format_flags));
       code.set_logger(&logger);
     }
-    code.attach(&a);
-    if (validate) a.add_diagnostic_options(DiagnosticOptions::kValidateAssembler);
+    if (!shared || g_shared_current == this) {
+      code.attach(ap);
+      if (validate) ap->add_diagnostic_options(DiagnosticOptions::kValidateAssembler);
+    }
     cases_since_reset = 0;
+  }
+  // --shared-emitter: detach the assembler from the other mode's holder and attach it here
+  void use() {
+    if (!shared || g_shared_current == this) return;
+    if (g_shared_current) g_shared_current->code.detach(ap);
+    g_shared_current = this;
+    code.attach(ap);
+    if (validate) ap->add_diagnostic_options(DiagnosticOptions::kValidateAssembler);
   }
 };
 
@@ -110,7 +125,9 @@ int main(int argc, char** argv) {
   }
 
   Env envs[2];
+  bool shared_emitter = args.u64("shared-emitter", 0) != 0;
   for (int i = 0; i < 2; i++) {
+    if (shared_emitter) { envs[i].shared = true; envs[i].ap = &envs[0].a; }
     envs[i].validate = validate;
     envs[i].use_logger = use_logger;
     envs[i].format_flags = format_flags;
@@ -131,7 +148,8 @@ int main(int argc, char** argv) {
     ss >> id >> arch >> name >> opts_s >> extra_s >> nops;
     Env& E = envs[arch == "x64" ? 1 : 0];
     if (++E.cases_since_reset > 1500) E.reinit();
-    x86::Assembler& a = E.a;
+    E.use();
+    x86::Assembler& a = *E.ap;
     Arch A = arch == "x64" ? Arch::kX64 : Arch::kX86;
 
     InstId inst_id;
